@@ -482,7 +482,7 @@ def run_call(rig, case, exc, canon=None):
             except BaseException as x:
                 obs["out"] = classify(x, len(c.requests) > nreq, canon, unanswered=(len(c.requests) - nreq) > (len(c.replies) - nrep))
                 obs["exc_is_pyroerror"] = any(qn(b) == "Pyro5.errors.PyroError" for b in type(x).__mro__)
-                obs["exc_str"] = str(x)[:400]
+                obs["exc_str"] = str(x)[:20000]
             obs["client_conn"] = p._pyroConnection is not None
             live = net.conns[max(net.conns)]
             obs["server_open"] = not live.server_closed
